@@ -42,6 +42,28 @@ pub struct Scn {
     /// which rewrite of the signature database pool and sequential analyzer are given (0 = bundled)
     #[serde(default)]
     pub db_variant: u32,
+    /// fault "slow worker" (non-zero): this much time passes, for whoever reads `Instant`, each time a worker takes a
+    /// frame out of its queue - a worker starved of CPU or blocked in a slow log sink while the dispatcher runs ahead
+    #[serde(default)]
+    pub slow_worker_ns: u64,
+}
+
+/// keeps the model channel's on-receive hook installed for the lifetime of the value
+struct SlowWorker;
+impl SlowWorker {
+    fn install(ns: u64) -> Option<SlowWorker> {
+        if ns == 0 {
+            return None;
+        }
+        let f: std::rc::Rc<dyn Fn()> = std::rc::Rc::new(move || clock::work_advance_ns(ns));
+        verif_chan::set_on_receive(Some(f));
+        Some(SlowWorker)
+    }
+}
+impl Drop for SlowWorker {
+    fn drop(&mut self) {
+        verif_chan::set_on_receive(None);
+    }
 }
 
 fn sequential(cfg: &PoolCfg, trace: &[Timed]) -> Result<Vec<Vec<Obs>>, Violation> {
@@ -133,6 +155,10 @@ fn run_eq(s: &Scn, st: &mut RunStats, check_probe_only: bool) -> Result<(), Viol
     let plan = Arc::new(ExecPlan { via_analyzer: s.via_analyzer, cfg: s.cfg.clone(), dispatchers: vec![all.iter().map(|p| p.frame.clone()).collect()], stats_calls: 0, wait_for: None, consumer_gone_after: None, shutdown_after_yields: None, idle_gap: s.idle_gap, reinit_pool: s.reinit_pool });
     st.evals = 0;
     let mut any = false;
+    let _slow = SlowWorker::install(s.slow_worker_ns);
+    if s.slow_worker_ns != 0 {
+        st.fault("slow_worker_seconds_per_frame");
+    }
     for seed in &s.schedules {
       for out in pool::run_plan(plan.clone(), *seed, s.sched, s.iters).map_err(|e| Violation::new("harness-error", "", e))? {
         st.evals += 1;
@@ -348,6 +374,11 @@ fn shrink_common(s: &Scn) -> Vec<Scn> {
         x.idle_gap = None;
         out.push(x);
     }
+    if s.slow_worker_ns != 0 {
+        let mut x = s.clone();
+        x.slow_worker_ns = 0;
+        out.push(x);
+    }
     if s.schedules.len() > 1 {
         for sd in &s.schedules {
             let mut x = s.clone();
@@ -427,7 +458,7 @@ impl Prop for C10 {
             cfg.workers = *r.pick(&[2usize, 2, 3, 4]);
             // the TCP analyzer tracks timestamps per direction: two entries per connection
             cfg.cap = if kind == PoolKind::Tcp { 2 * n } else { n };
-            return Scn { idle_gap: None, reinit_pool: false, db_variant: 0, cfg, trace, probe: vec![], via_analyzer: false, schedules: vec![r.next_u64()], iters: 2, sched: Sched::Random };
+            return Scn { slow_worker_ns: 0, idle_gap: None, reinit_pool: false, db_variant: 0, cfg, trace, probe: vec![], via_analyzer: false, schedules: vec![r.next_u64()], iters: 2, sched: Sched::Random };
         }
         let n = r.urange(2, tier.pick(6, 12));
         let trace = gen_trace(r, kind, n, true);
@@ -447,7 +478,9 @@ impl Prop for C10 {
         let sched = if tier == Tier::Thorough && idle_gap.is_none() && r.chance(1, 4) { Sched::Pct(r.urange(2, 3)) } else { Sched::Random };
         let reinit_pool = via && kind == PoolKind::Http && r.chance(1, 2);
         let db_variant = if kind != PoolKind::Tls && r.chance(1, 4) { 1 + r.below(crate::sut::DB_VARIANTS as u64) as u32 } else { 0 };
-        Scn { idle_gap, reinit_pool, db_variant, cfg, trace, probe: vec![], via_analyzer: via, schedules: (0..n_sched).map(|_| r.next_u64()).collect(), iters: tier.pick(8, 20), sched }
+        // fault, every other TCP scenario that goes through the analyzer's own loop: a slow worker (seconds per frame)
+        let slow_worker_ns = if via && kind == PoolKind::Tcp && r.chance(1, 2) { *r.pick(&[1_500_000_000u64, 3_000_000_000, 10_000_000_000]) } else { 0 };
+        Scn { slow_worker_ns, idle_gap, reinit_pool, db_variant, cfg, trace, probe: vec![], via_analyzer: via, schedules: (0..n_sched).map(|_| r.next_u64()).collect(), iters: tier.pick(8, 20), sched }
     }
 
     fn run(s: &Scn, st: &mut RunStats) -> Result<(), Violation> {
@@ -486,7 +519,7 @@ impl Prop for C08Pool {
         cfg.workers = *r.pick(&[1usize, 2, 3, 4, 8]);
         cfg.batch = *r.pick(&[1usize, 2, 4, 32]);
         let n_sched = tier.pick(2, 8);
-        Scn { idle_gap: None, reinit_pool: false, db_variant: 0, cfg, trace, probe: vec![], via_analyzer: false, schedules: (0..n_sched).map(|_| r.next_u64()).collect(), iters: tier.pick(6, 12), sched: Sched::Random }
+        Scn { slow_worker_ns: 0, idle_gap: None, reinit_pool: false, db_variant: 0, cfg, trace, probe: vec![], via_analyzer: false, schedules: (0..n_sched).map(|_| r.next_u64()).collect(), iters: tier.pick(6, 12), sched: Sched::Random }
     }
 
     fn run(s: &Scn, st: &mut RunStats) -> Result<(), Violation> {
@@ -546,8 +579,14 @@ impl Prop for C01Pool {
         }
         let mut cfg = gen_cfg(r, kind, trace.len() + probe.len());
         cfg.workers = *r.pick(&[1usize, 2, 3, 4]);
+        // the receive timeout is a public u64: zero (poll without waiting), hours, and values that mean "never"
+        if r.chance(1, 4) {
+            cfg.timeout_ms = *r.pick(&[0u64, 3_600_000, u64::MAX, u64::MAX, u64::MAX / 1000, 1 << 62]);
+        }
+        // one run in three goes through the analyzer's own parallel capture loop, which ends the run itself
+        let via_analyzer = r.chance(1, 3);
         let n_sched = tier.pick(2, 6);
-        Scn { idle_gap: None, reinit_pool: false, db_variant: if r.chance(1, 4) { 1 + r.below(crate::sut::DB_VARIANTS as u64) as u32 } else { 0 }, cfg, trace, probe, via_analyzer: false, schedules: (0..n_sched).map(|_| r.next_u64()).collect(), iters: tier.pick(4, 10), sched: Sched::Random }
+        Scn { slow_worker_ns: 0, idle_gap: None, reinit_pool: false, db_variant: if r.chance(1, 4) { 1 + r.below(crate::sut::DB_VARIANTS as u64) as u32 } else { 0 }, cfg, trace, probe, via_analyzer, schedules: (0..n_sched).map(|_| r.next_u64()).collect(), iters: tier.pick(4, 10), sched: Sched::Random }
     }
 
     fn run(s: &Scn, st: &mut RunStats) -> Result<(), Violation> {
@@ -557,6 +596,11 @@ impl Prop for C01Pool {
             } else if p.conn == 200_000 {
                 st.fault("splice");
             }
+        }
+        if s.cfg.timeout_ms >= 1 << 50 {
+            st.fault("receive_timeout_that_never_fires");
+        } else if s.cfg.timeout_ms == 0 {
+            st.fault("receive_timeout_zero");
         }
         run_eq(s, st, true)
     }
@@ -606,7 +650,7 @@ impl Prop for C15Pool {
         let mut cfg = gen_cfg(r, kind, trace.len());
         cfg.filter = Some(super::c15::gen_filter(r, &trace));
         let n_sched = tier.pick(2, 6);
-        Scn { idle_gap: None, reinit_pool: false, db_variant: 0, cfg, trace, probe: vec![], via_analyzer: r.chance(1, 4), schedules: (0..n_sched).map(|_| r.next_u64()).collect(), iters: tier.pick(4, 10), sched: Sched::Random }
+        Scn { slow_worker_ns: 0, idle_gap: None, reinit_pool: false, db_variant: 0, cfg, trace, probe: vec![], via_analyzer: r.chance(1, 4), schedules: (0..n_sched).map(|_| r.next_u64()).collect(), iters: tier.pick(4, 10), sched: Sched::Random }
     }
 
     fn run(s: &Scn, st: &mut RunStats) -> Result<(), Violation> {
